@@ -92,6 +92,15 @@ def scenarios(tier: str) -> List[Dict[str, Any]]:
                             for how in (("fin", "rst") if dead else ("-",)):
                                 out.append(dict(tc=tc, grace=grace, flip=flip, label=label, data=data.hex(), desc=desc, nw=list(nw),
                                                 dead=list(dead), how=how, departure=False))
+        # the logger is not writable, the manager waits for it - and the logger goes away during that wait: the write after the wait
+        # fails (both deviations in one delivery, at one subscriber)
+        for label, data, desc in kinds(tc):
+            if label not in ("broadcast", "to-S1", "to-nobody", "failed-typed", "log-44"):
+                continue
+            for extra in ((), ("S1",), ("F",), ("A",), ("S2", "F")):
+                for how in ("fin", "rst"):
+                    out.append(dict(tc=tc, grace=grace, flip=flip, label=label + "/logger-lost-while-waited-for", data=data.hex(), desc=desc, nw=["L"] + list(extra),
+                                    dead=[], wait_dead=["L"], how=how, departure=False))
         # two frames of the publisher in one round, and a second delivery after the first one's failures (state left behind
         # by a delivery: deferred notices, removed modules, the recursion guard): lock step only
         if lite:
@@ -161,6 +170,8 @@ def execute(args) -> Dict[str, Any]:
         mark = {s: len(env.received[s]) for s in env.received}
         for d in sc["dead"]:
             env.apply([sc["how"], d])
+        for d in sc.get("wait_dead", []):
+            env.apply(["waitdeath", d, sc["how"]])
         if sc["departure"]:
             env.apply(ev_send("E", fr(tc, P.MT_DISCONNECT, src_mod_id=IDS["E"])))
         else:
@@ -206,19 +217,20 @@ def independent_oracle(sc, env, mark, waits, first_round, order) -> List[Dict[st
     got_msg = {s: sum(1 for k in env.received[s][mark[s]:] if k[0] == "fwd" and k[1] == mt) for s in SLOTS if s in env.received}
     notices = {s: [k for k in env.received[s][mark[s]:] if k[0] == "failed" and k[2] == mt] for s in env.received}
     # who should hold the notices: live, writable FAILED_MESSAGE subscribers (F, S1 by subscription; A, L via ALL)
-    holders = [s for s in ("F", "S1", "A", "L") if s not in sc["dead"] and (s not in sc["nw"] or s == "L")]
+    wdead = sc.get("wait_dead", [])
+    holders = [s for s in ("F", "S1", "A", "L") if s not in sc["dead"] and s not in wdead and (s not in sc["nw"] or s == "L")]
     # a peer that has closed makes a send fail only once the kernel knows: after a FIN the first `grace` send calls
     # still succeed (into the void) - with grace >= 2 both sends of this frame do and nothing can be noticed yet
     send_fails = sc["how"] == "rst" or sc["grace"] < 2
     for s in eligible:
-        if s in sc["dead"] and not send_fails:
+        if (s in sc["dead"] or s in wdead) and not send_fails:
             continue
-        undeliverable = (s in sc["dead"]) or (s in sc["nw"] and s != "L")
+        undeliverable = (s in sc["dead"]) or (s in wdead) or (s in sc["nw"] and s != "L")
         if not undeliverable:
             if got_msg.get(s, 0) != 1:
                 probs.append({"prop": "C14", "kind": "eligible-not-served", "slot": s, "got": got_msg.get(s, 0)})
             continue
-        if s in sc["nw"] and got_msg.get(s, 0) != 0:
+        if s in sc["nw"] and s not in wdead and got_msg.get(s, 0) != 0:
             probs.append({"prop": "C14", "kind": "skipped-but-delivered", "slot": s})
         counts = {}
         for h in holders:
@@ -229,9 +241,9 @@ def independent_oracle(sc, env, mark, waits, first_round, order) -> List[Dict[st
         # A dead subscriber may be uncovered (and removed) by a nested delivery - e.g. of the failure notice
         # about another subscriber - before its own turn; the statement does not say whether a notice is
         # then due. Only when it is the sole deviation is the count exact; otherwise 0 or 1, consistently.
-        sole = len(sc["dead"]) + len(sc["nw"]) == 1
+        sole = len(sc["dead"]) + len(sc["nw"]) == 1 or (s in wdead and sc["nw"] == wdead)
         for h, n in counts.items():
-            ok = n == want if (sole or s not in sc["dead"]) else (n in (0, want) and len(set(counts.values())) == 1)
+            ok = n == want if (sole or s not in sc["dead"] + wdead) else (n in (0, want) and len(set(counts.values())) == 1)
             if not ok:
                 probs.append({"prop": "C14", "kind": "notice-count", "about": s, "holder": h, "expected": want, "got": n})
     if not desc["notice"]:
